@@ -66,6 +66,12 @@ def small_scenarios(rng, tier, wd):
     t = bytearray(B5[:z.hdr_len + z.chunks[3][3] + 4])
     t[z.hdr_len + z.chunks[1][3]] ^= 9
     out.append((c04.Scn("k5-pieces-multipart", None, B5, bytes(t), "partial-cut"), 1000, 7))
+    # 7 chunks as large as / larger than the 32 KiB scan block: a chunk of exactly 32768 stored bytes in the middle and a last
+    #   chunk of two blocks and a bit (an interruption deep inside the last chunk leaves a file that ends after whole
+    #   blocks of it), plain and with the uncompressed-source flag (no data checksum behind the scan's verdict)
+    c7 = [rng.rbytes(40), rng.rbytes(32768), rng.rbytes(25), rng.rbytes(2 * 32768 + 777)]
+    out.append((c04.Scn("k7-big-last", None, mk(c7, ht=1, cht=1)[0], None, "absent"), 1000, 1 << 16))
+    out.append((c04.Scn("k7u-big-last-uflag", None, mk(c7, ht=1, cht=1, flags=4)[0], None, "absent"), 1000, 1 << 16))
     # 6 zstd pair from the tree's zck tool (edited old file as source), responses in 13-byte pieces, server allows 2 ranges
     zp = c04.zstd_pairs(vlib.Rng(vlib.seed() + 11), 2, wd)
     if zp:
